@@ -29,27 +29,30 @@ def main(ctx: Ctx):
     per = None if T else {'thread': 10 ** 6, 'process': 14, 'remote': 10}
     cases, _ = landing.plan(ctx, meta, progs, ['r'], ['raise', 'terminate', 'kill'], per_prog=per)
     recs = landing.run_cases(ctx, cases)
-    for i, rec in enumerate(recs):
+    def evaluate(c, rec):
         r = rec['real']
         kind = inject.KINDS[rec['prog']][2]
-        ctx.case((rec['prog'], rec['k'], rec['mode']), rec['k'] is not None, sample=landing.describe(rec) if i % 47 == 0 else None)
-        ctx.count(f'{kind}:{rec["mode"]}')
-        landing.correspond(ctx, rec)
+        landing.correspond(c, rec)
         if r.get('ctor') != 'ok' or 'results' not in r:
-            continue
+            return
         d = landing.describe(rec)
         res = r['results']
         line = landing.landing_line(rec)
         if res == 'hang':
-            ctx.fail(f'results-iter-blocks:{kind}', f'{rec["prog"]}: results_iter() blocks on a dead worker (event {rec["mode"]} at line {line})', d)
-            continue
+            c.fail(f'results-iter-blocks:{kind}', f'{rec["prog"]}: results_iter() blocks on a dead worker (event {rec["mode"]} at line {line})', d)
+            return
         if not isinstance(res, list) or res != EXPECTED[:len(res)]:
-            ctx.fail(f'not-a-prefix:{kind}', f'{rec["prog"]}: results {res!r} are not a prefix of {EXPECTED} (event {rec["mode"]} at line {line})', d)
+            c.fail(f'not-a-prefix:{kind}', f'{rec["prog"]}: results {res!r} are not a prefix of {EXPECTED} (event {rec["mode"]} at line {line})', d)
         m = rec['model']
         if m is not None and isinstance(res, list) and 'landing-point-not-reached' not in r['notes'] and 'terminate-never-arrived' not in r['notes']:
             n_model = sum(1 for x in m['results'] if x.startswith('item'))
             if n_model != len(res):
-                ctx.broke('correspondence', 'Py.run results vs results_iter()', f'{rec["line"]}: real {res} model {m["results"]}')
+                c.broke('correspondence', 'Py.run results vs results_iter()', f'{rec["line"]}: real {res} model {m["results"]}')
+    for i, rec in enumerate(recs):
+        kind = inject.KINDS[rec['prog']][2]
+        ctx.case((rec['prog'], rec['k'], rec['mode']), rec['k'] is not None, sample=landing.describe(rec) if i % 47 == 0 else None)
+        ctx.count(f'{kind}:{rec["mode"]}')
+        landing.judge(ctx, rec, evaluate)
     sess = inject.Session()
     try:
         # ---- thread kind: a terminate landing inside _cleanup (before it wrote the marker) with a consumer already blocked
